@@ -321,7 +321,8 @@ def ingredients(d, st, s, nlp, fake, tags):
             else:
                 k = min(i // per, N - 1)
                 ku = k
-            if not (tc[min(k, N - 1)] - 1e-9 <= tv[i] <= tc[min(k, N - 1) + 1] + 1e-9):
+            a_, b_ = tc[min(k, N - 1)], tc[min(k, N - 1) + 1]      # (localized grids: generic decision vectors need not order the nodes)
+            if not (min(a_, b_) - 1e-9 <= tv[i] <= max(a_, b_) + 1e-9):
                 vios.append(dict(sig="value:ingredient:time:%s" % grid, tags=tags + ["grid=%s" % gtag], detail="time stamp %g of sampled point %d lies outside its control interval" % (tv[i], i)))
                 break
             if abs(pv[i] - pc[k]) > 1e-12:
